@@ -168,6 +168,9 @@ func (x *Exec) opaqueIface(tag string) Value {
 // ---- calls ---------------------------------------------------------------
 
 func fullName(fn *ssa.Function) string {
+	if o := fn.Origin(); o != nil {
+		fn = o
+	}
 	if fn.Pkg != nil && fn.Signature.Recv() == nil {
 		return fn.Pkg.Pkg.Path() + "." + fn.Name()
 	}
